@@ -264,6 +264,10 @@ def run(ctx: Ctx):
             spec.update(sub_ns=True, bad_dur=True, short=True, meta=True, near_wrap=True, flat_power=True, origin=True)
         if s == 4:
             spec.update(layout="subdirs", kernels=0)
+        if s == 5:
+            spec.update(groups=0, R=1, pid_base=1)           # one rank of a larger job analysed alone: pid 1, no pid 0
+        if s == 6:
+            spec.update(groups=0, R=2, pid_base=2)
         if s == 0:
             spec["overlap_depth"] = 5          # exactly the documented lane budget
         if s == 1:
@@ -279,6 +283,8 @@ def run(ctx: Ctx):
         osets = ([[]] + [dom[(s * 3 + j) % len(dom)] for j in range(3)] + pairs[:4]) if ctx.quick() else singles + pairs
         if spec.get("stale") and ["--flow"] not in osets:
             osets = osets + [["--flow"]]
+        if spec.get("pid_base") and spec.get("groups") == 0 and ["--tb"] not in osets:
+            osets = osets + [["--tb"]]                   # per-rank TensorBoard files for rank ids that do not start at 0
         if spec.get("flat_power") and ["--power-stats"] not in osets:
             osets = osets + [["--power-stats"]]          # statistics over power samples that are all exactly 0 W
         for oi, o in enumerate(osets):
